@@ -1,5 +1,6 @@
 """C06 - symbolic evaluation is sound substitution.
 
+
 case = (expression e, state, valuations):
   state binds identifiers of e to a constant / a symbolic expression over free symbols / nothing, and
   binds some memory cells read by e (same address, same size) to a constant or symbolic expression.
@@ -15,6 +16,7 @@ from vlib import runner, irsem, exprgen
 from vlib.exprgen import build, sshow, swidth, sids, paths, get_at, set_at, to_script
 from checks.c15_struct import substitute, exc_sig
 
+MEM_LIMIT = 6 << 30       # bytes of address space for this check's processes (see vlib/main.py)
 NV = 6
 FREE = {1: ["f1", "g1"], 8: ["f8", "g8"], 16: ["f16", "g16"], 32: ["f32", "g32", "h32"], 64: ["f64", "g64"]}
 
@@ -259,6 +261,12 @@ def mixed_rotate_chain(s):
         while n[0] == "op" and n[1] in ("<<<", ">>>") and len(n[2]) == 2:
             ws.add(swidth(n[2][1]))
             n = n[2][0]
+            # the rule sees its operand after simplification: (A <<< c1)[0:16] or B ^ B ^ (A <<< c1) are (A <<< c1)
+            try:
+                from miasmx.expression.expression_helper import expr_simp
+                n = to_script(expr_simp(build(n)))
+            except Exception:
+                pass
         if len(ws) > 1:
             return True
     return False
@@ -343,7 +351,6 @@ def main(run):
                 "identifiers and same-address memory cells x 6 valuations of the free symbols. non-trivial = at least one identifier or cell is bound; distinct = (expression, bound names, cells)")
     run.assumptions = ["vlib/irsem.py is the value semantics", "fresh Expr objects and a fresh machine per case; the shared default eval_cache of get_mem_overlapping is cleared before each case (C12's subject)",
                        "reads that partially overlap a bound cell are excluded (C07's subject)", "division operators are judged only where the divisor is non-zero"]
-    run.mem_limit = 4 << 30       # per worker: unbounded allocation by the code under test becomes a MemoryError, see runner._call
     runner.pmap(run, w_run, [run.pick(1500, 30000)] * 16)
 
 
